@@ -320,6 +320,15 @@ func c17Exec(t *testing.T, sc *gen.Scenario, trace bool) *harness.Outcome {
 				if v == nil {
 					return
 				}
+				if last != nil {
+					// keep the shape discriminators found under the other admissible model(s): the answer
+					// may have been computed under any of them
+					for _, tok := range strings.Fields(last.Sig) {
+						if !strings.Contains(v.Sig, tok) {
+							v.Sig += " " + tok
+						}
+					}
+				}
 				last = v
 			}
 			if last != nil {
